@@ -1,10 +1,24 @@
 package main
 
+import (
+	"bufio"
+	"fmt"
+	"io"
+	"net"
+	"runtime"
+	"strings"
+	"sync"
+	"sync/atomic"
+	"time"
+
+	"github.com/fluffle/goirc/client"
+)
+
 // C05: with state tracking enabled every user handler for line k sees a tracker that already
 // reflects line k, a foreground one sees no later line.  Script: 001, our own JOIN of #c, then
 // TOPIC / 332 / MODE +k lines whose effect on the tracker is the line's serial.
 func init() {
-	props["C05"] = &Prop{Gen: c05Gen, Exec: dspRunChild, Class: dspClass}
+	props["C05"] = &Prop{Gen: c05Gen, Exec: c05Exec, Class: dspClass}
 }
 
 func c05Gen(r *Rand, tier string, scale int, emit func(Fields)) {
@@ -19,4 +33,137 @@ func c05Gen(r *Rand, tier string, scale int, emit func(Fields)) {
 		}
 		emit(c.encode())
 	}
+	// "storm" sessions (seeded C05-9: a completion counter in hSet.dispatch that can reach 0
+	// before every handler is counted, seen once in 15k..300k dispatches): tens of thousands of
+	// NICK lines renaming US, the one verb with TWO internal handlers (h_NICK + h_STNICK), two
+	// foreground handlers and one background handler reading StateTracker().Me().Nick.
+	storms, per := 6, 60000
+	if tier == "thorough" {
+		storms = 40
+	}
+	for n := 0; n < storms; n++ {
+		emit(F(16, 1, 0, 0, 0, 0, 0, 0, 0, int(r.U64()%1000000007), 0, 0, 0, 0, "storm", per))
+	}
+}
+
+func c05Exec(in Fields) Fields {
+	if len(in) == 16 && in.S(14) == "storm" {
+		return c05Storm(in)
+	}
+	return dspRunChild(in)
+}
+
+// c05Storm: 001 is line 0 (nick "me"), line k = 1..N is ":<cur>!i@h NICK s<k>".  The tracker
+// reflects line j exactly when Me().Nick is "s<j>": sample a = j+1 (a = 1 for "me").  The log
+// keeps the events of the first 12 lines and EVERY event whose sample the monitor chk5 rejects
+// (foreground: a <> k+1, background: a < k+1), at most 200: C05_ok judges each event by itself.
+func c05Storm(in Fields) Fields {
+	n := in.I(15)
+	if n > 65000 {
+		n = 65000
+	}
+	old := runtime.GOMAXPROCS(in.I(0))
+	defer runtime.GOMAXPROCS(old)
+	dspKeySeq++
+	ms := NewMemServer(fmt.Sprintf("storm%d", dspKeySeq))
+	cfg := client.NewConfig("me", "ident", "name")
+	cfg.Server = "irc.example"
+	cfg.Proxy = ms.URL()
+	cfg.PingFreq = 0
+	cfg.Flood = true
+	conn := client.Client(cfg)
+	conn.EnableStateTracking()
+	var mu sync.Mutex
+	var evs []dspEvent
+	var bgLive int64
+	sample := func() int {
+		nk := conn.StateTracker().Me().Nick
+		if nk == "me" {
+			return 1
+		}
+		return dspAtoi(strings.TrimPrefix(nk, "s")) + 1
+	}
+	h := func(kind, i int) client.HandlerFunc {
+		return func(c *client.Conn, line *client.Line) {
+			if kind == dspKBg {
+				defer atomic.AddInt64(&bgLive, -1)
+			}
+			if len(line.Args) < 1 || !strings.HasPrefix(line.Args[0], "s") {
+				return
+			}
+			k := dspAtoi(line.Args[0][1:])
+			for tag := 0; tag < 2; tag++ {
+				a := sample()
+				bad := a != k+1
+				if kind == dspKBg {
+					bad = a < k+1
+				}
+				if k <= 12 || bad {
+					mu.Lock()
+					if len(evs) < 200 {
+						evs = append(evs, dspEvent{tag, kind, k, i, a})
+					}
+					mu.Unlock()
+				}
+			}
+		}
+	}
+	conn.HandleFunc("NICK", h(dspKFg, 0))
+	conn.HandleFunc("NICK", h(dspKFg, 1))
+	conn.HandleBG("NICK", client.HandlerFunc(func(c *client.Conn, l *client.Line) {
+		atomic.AddInt64(&bgLive, 1)
+		h(dspKBg, 0)(c, l)
+	}))
+	end := make(chan struct{})
+	var endOnce sync.Once
+	conn.HandleFunc("DSPEND", func(*client.Conn, *client.Line) { endOnce.Do(func() { close(end) }) })
+	errc := make(chan error, 1)
+	go func() { errc <- conn.Connect() }()
+	var srv net.Conn
+	select {
+	case srv = <-ms.Conns:
+	case <-time.After(5 * time.Second):
+		return F("end:noconnect")
+	}
+	go io.Copy(io.Discard, srv)
+	if err := <-errc; err != nil {
+		return F("end:connecterr")
+	}
+	status := "ok"
+	wdone := make(chan struct{})
+	go func() {
+		defer close(wdone)
+		w := bufio.NewWriterSize(srv, 1<<16)
+		fmt.Fprintf(w, ":irc.example 001 me :welcome\r\n")
+		cur := "me"
+		for k := 1; k <= n; k++ {
+			fmt.Fprintf(w, ":%s!i@h NICK s%d\r\n", cur, k)
+			cur = fmt.Sprintf("s%d", k)
+		}
+		fmt.Fprintf(w, "DSPEND\r\n")
+		w.Flush()
+	}()
+	select {
+	case <-end:
+	case <-time.After(120 * time.Second):
+		status = "storm-timeout"
+	}
+	for t := 0; t < 4000 && atomic.LoadInt64(&bgLive) > 0; t++ {
+		time.Sleep(500 * time.Microsecond)
+	}
+	srv.Close()
+	tdone := make(chan struct{})
+	go func() { conn.Close(); close(tdone) }()
+	select {
+	case <-tdone:
+	case <-time.After(5 * time.Second):
+	}
+	<-wdone
+	mu.Lock()
+	defer mu.Unlock()
+	var obs Fields
+	for _, e := range evs {
+		obs = append(obs, []byte{byte(e.tag), byte(e.kind), byte(e.k >> 8), byte(e.k), byte(e.i), byte(e.a >> 8), byte(e.a)})
+	}
+	return append(obs, []byte("end:"+status))
 }
